@@ -54,7 +54,7 @@ def main(tier):
         else:
             flt = [n for n, s in named_specs(tree) if s["t"] in ("seq", "list", "dict", "block")]
         cases.append({"seed": ck.seed * 1000 + i, "dtype": ["float32", "float16", "bfloat16"][i % 3], "weights": wq[i % 6], "activations": aq[(i // 2) % 6], "tree": tree, "filter": flt,
-                      "variants": [rng.randint(0, 11), rng.randint(0, 11)], "explicit_none_filter": flt is None and rng.random() < 0.3, "optimizer": "clip" if rng.random() < 0.2 else None})
+                      "variants": [rng.randint(0, 11), rng.randint(0, 35)], "explicit_none_filter": flt is None and rng.random() < 0.3, "optimizer": "clip" if rng.random() < 0.2 else None})
     for c in cases:
         if c["dtype"] == "bfloat16" and c["weights"] == "qint8" and c["activations"] is None:
             # F14 (C07): bfloat16 activations x qint8 weights with in_features % 4 == 0 and % 16 != 0 crash the interpreter in torch._weight_int8pack_mm;
@@ -77,6 +77,10 @@ def main(tier):
     # directed: LayerNorm without affine parameters, with quantized activations
     cases.append({"seed": 15, "dtype": "float32", "weights": "qint8", "activations": "qint8", "filter": None, "variants": [0, 1], "directed": "ln-no-affine",
                   "tree": {"t": "seq", "ch": [{"t": "ln", "shape": [8], "affine": False, "bias": False, "eps": 1e-5}, {"t": "linear", "in": 8, "out": 4, "bias": True}]}})
+    # directed: LayerNorm with quantized activations on small-magnitude inputs / with a large eps (float and pre-quantized inputs)
+    for k, (eps, vs) in enumerate([(1e-5, [13, 25, 12, 24]), (0.1, [1, 13, 0]), (1e-3, [25, 29])]):
+        cases.append({"seed": 40 + k, "dtype": "float32", "weights": "qint8", "activations": ["qint8", "qfloat8", "qint8"][k], "filter": None, "variants": vs, "directed": "ln-small",
+                      "tree": {"t": "seq", "ch": [{"t": "ln", "shape": [16], "affine": True, "bias": True, "eps": eps}]}})
     # directed: a half-precision chain through a LayerNorm without parameters, run before any calibration
     cases.append({"seed": 16, "dtype": "float16", "weights": "qint4", "activations": "qfloat8", "filter": None, "variants": [0], "directed": "ln-no-affine-half", "chain_input": [3, 16],
                   "tree": {"t": "seq", "ch": [{"t": "linear", "in": 16, "out": 16, "bias": True}, {"t": "ln", "shape": [16], "affine": False, "bias": False, "eps": 1e-5},
